@@ -1,4 +1,4 @@
-CONSTANTS MaxN = 4  MaxLen = 3  W = 4  MaxBr = 2  Mutant = "none"
+CONSTANTS MaxN = 4  MaxLen = 3  W = 4  MaxBr = 2  WithManual = FALSE  Mutant = "none"
 SPECIFICATION Spec
 INVARIANT Recovered
 CHECK_DEADLOCK FALSE
